@@ -34,11 +34,12 @@ def enc_step(op, arg, data, rng):
     raise ValueError(op)
 
 
-def server_encode(recover_steps, payload: bytes, rng) -> bytes:
-    """body of a task response: the inverse of the recover program (which lists print first, then the undo steps)"""
+def server_encode(recover_steps, payload: bytes, rng, fill=None) -> bytes:
+    """body of a task response: the inverse of the recover program (which lists print first, then the undo steps);
+    `fill`: bytes the appended / prepended strings are cut from (default: random alphanumerics)"""
     data = payload
     for op, arg in reversed([s for s in recover_steps if s[0] != "print"]):
         if op in ("append", "prepend"):
-            arg = bytes(rng.choice(b"abcdefXYZ0123456789") for _ in range(arg))
+            arg = (fill * (arg // len(fill) + 1))[:arg] if fill else bytes(rng.choice(b"abcdefXYZ0123456789") for _ in range(arg))
         data = enc_step(op, arg, data, rng)
     return data
